@@ -113,7 +113,7 @@ def file_case(draw, tier):
     nops = draw(st.integers(1, 200 if tier == "thorough" else 40))
     ops = draw(st.lists(op_strategy(), min_size=1, max_size=nops))
     return {"layout": layout, "records": records, "title": title, "box": box, "vel": vel, "ops": ops,
-            "prior": draw(st.booleans()), "crlf": draw(st.integers(0, 4)) == 0}
+            "prior": draw(st.booleans()), "crlf": draw(st.integers(0, 4)) == 0, "fresh_for_ops": draw(st.booleans())}
 
 
 @st.composite
@@ -188,6 +188,11 @@ def check(case):
     for k, res in enumerate(full):
         same(res, k, "iteration")
 
+    if case.get("fresh_for_ops"):
+        # the access history runs on an object that has not been walked completely before (whatever it builds lazily
+        # is still incomplete); the first object stays alive beside it
+        sg_first = sg
+        sg = lib("load", SystemGro, path)
     iters = []          # [iterator, position]
     partial = False
     backward = False
@@ -255,7 +260,7 @@ def check(case):
             "classes": ["layout:" + case["layout"], "vel" if case["vel"] else "novel",
                         "residues:%s" % ("1" if n == 1 else "2-14" if n <= 14 else "15+"),
                         "rewritten-path" if case.get("prior") else "fresh-path",
-                        "crlf" if case.get("crlf") else "lf",
+                        "crlf" if case.get("crlf") else "lf", "ops-on:" + ("fresh-object" if case.get("fresh_for_ops") else "walked-object"),
                         "zero-velocity-atom" if any(len(r) == 10 and not any(r[7:]) for r in records) else "no-frozen-atom"],
             "sample": {"layout": case["layout"], "n_residues": n, "first_records": case["records"][:3], "ops": case["ops"][:12]}}
 
